@@ -6,8 +6,9 @@ for that property against the copy.
   selftest.py --prop C07 [--merge /verif/evidence/C07.json] [--jobs 8]
   selftest.py --all
 
-Sources of changes: /verif/mutants/mutants.tsv (sed expressions) and /verif/seeded/*/ (patch.diff +
-meta.json written for independently produced changes). Scratch copies live under $TMPDIR (or /tmp)
+Sources of changes: /verif/mutants/mutants.tsv (sed expressions), /verif/seeded/*/ (patch.diff +
+meta.json written for independently produced property-breaking changes) and /verif/benign/*/ (independently
+produced behaviour-preserving refactors: every listed check must stay silent). Scratch copies live under $TMPDIR (or /tmp)
 and are removed as soon as their verdict is in. The result never changes a check's exit status:
 it is evidence of the rules' power, printed as SELFTEST lines (never as VIOLATION lines)."""
 import argparse, concurrent.futures, json, os, shutil, subprocess, sys, tempfile, glob
@@ -37,6 +38,13 @@ def load_cases(prop):
                 continue
             cases.append({"id": "seeded:" + os.path.basename(os.path.dirname(meta)), "prop": p, "kind": "patch",
                           "patch": os.path.join(os.path.dirname(meta), "patch.diff"), "expect": m.get("expect", "kill")})
+    for meta in sorted(glob.glob(os.path.join(HERE, "benign", "*", "meta.json"))):
+        m = json.load(open(meta))
+        for p in m.get("props", []):
+            if prop and p != prop:
+                continue
+            cases.append({"id": "benign:" + m["id"], "prop": p, "kind": "patch",
+                          "patch": os.path.join(os.path.dirname(meta), "patch.diff"), "expect": "silent"})
     return cases
 
 
